@@ -302,6 +302,7 @@ class XEval:
         their *text* ("raw": the abstract integer plus whether it is spelled canonically - ' 255', '0255', '+255'
         are integers to int() but are not the string '255')."""
         schema = self.I.prog.cls(SCHEMA)
+        self.ctxvals = {}
         raw = lambda v: ("raw", v, canonical)  # noqa: E731
         data = {"child_id": raw(child), "command": raw(command), "message_type": raw(mtype), "node_id": raw(("k", 1)), "ack": raw(("k", 0)), "payload": ("s", "")}
         try:
@@ -352,6 +353,11 @@ class XEval:
             return None
         if isinstance(s, ast.AnnAssign) and isinstance(s.target, ast.Name) and s.value is not None:
             env[s.target.id] = self.ev(s.value, env, f)
+            return None
+        if isinstance(s, ast.Assign) and len(s.targets) == 1 and isinstance(s.targets[0], ast.Subscript) and isinstance(s.targets[0].value, ast.Attribute) and s.targets[0].value.attr == "context" and isinstance(s.targets[0].slice, ast.Constant) and isinstance(s.targets[0].slice.value, str):
+            if not hasattr(self, "ctxvals"):
+                self.ctxvals = {}
+            self.ctxvals[s.targets[0].slice.value] = self.ev(s.value, env, f)
             return None
         if isinstance(s, ast.Return):
             return ("ret", self.ev(s.value, env, f) if s.value is not None else ("none",))
@@ -444,6 +450,11 @@ class XEval:
                 if m is not None:
                     return ("method", m, base)
             raise AnalysisError(f"XFIELD-1: attribute {norm(e)} in {f.fq} not modelled")
+        if isinstance(e, ast.Subscript) and isinstance(e.value, ast.Attribute) and e.value.attr == "context" and isinstance(e.slice, ast.Constant) and isinstance(e.slice.value, str):
+            # the schema's context mapping, filled by an earlier field of the same load (fields run in declared order)
+            if e.slice.value in getattr(self, "ctxvals", {}):
+                return self.ctxvals[e.slice.value]
+            raise AnalysisError(f"XFIELD-1: context[{e.slice.value!r}] read before any field of this load stored it")
         if isinstance(e, ast.Subscript):
             base = self.ev(e.value, env, f)
             k = self.ev(e.slice, env, f)
